@@ -5,7 +5,7 @@
 set -u
 WANT=${1:-S}
 export GOFLAGS=-mod=mod GOPROXY=off GOSUMDB=off GOTOOLCHAIN=local GONOSUMDB=* GONOSUMCHECK=1 GOFLAGS=-mod=mod
-VERIF=/verif
+VERIF=$(cd "$(dirname "$0")/.." && pwd)
 REPO=${KNUT_REPO:-/repo}
 GO126=/opt/veriftools/go1.26.8/bin/go
 CACHE=$VERIF/.cache
@@ -35,7 +35,9 @@ fi
 for d in $CACHE/*/; do
   d=${d%/}
   [ "$d" = "$OUT" ] && continue
-  [ -d "$d" ] && rm -rf "$d"
+  case "$(basename "$d")" in
+    [0-9a-f][0-9a-f][0-9a-f][0-9a-f][0-9a-f][0-9a-f][0-9a-f][0-9a-f][0-9a-f][0-9a-f][0-9a-f][0-9a-f][0-9a-f][0-9a-f][0-9a-f][0-9a-f][0-9a-f][0-9a-f][0-9a-f][0-9a-f]) rm -rf "$d";;
+  esac
 done
 
 S=$(mktemp -d /tmp/knutsim.XXXXXX)
